@@ -520,7 +520,14 @@ pub fn run(c: &mut Ctx) {
             };
             let day = date.num_days_from_ce() as i64;
             let dt = NaiveDateTime::new(date, t);
-            let dn = if c.rng.chance(1, 2) { *c.rng.pick(&boundary_ns(ts, frac, ns_max, ns_min)) } else { gen_delta_ns(c, ns_max, ns_min) };
+            let dn = if c.rng.chance(1, 6) {
+                // whole days plus less than a second or two: the day part and the remainder may take different paths
+                c.rng.range(-3, 3) as i128 * DAY + *c.rng.pick(&[0i128, 300_000_000, 500_000_000, -300_000_000, 999_999_999, 1_000_000_000, -1, 1, 1_700_000_000])
+            } else if c.rng.chance(1, 2) {
+                *c.rng.pick(&boundary_ns(ts, frac, ns_max, ns_min))
+            } else {
+                gen_delta_ns(c, ns_max, ns_min)
+            };
             let d = td_of_ns(dn);
             let (ds, df) = td_raw_of_ns(dn);
             let show = |o: Option<NaiveDateTime>| match o {
@@ -553,6 +560,32 @@ pub fn run(c: &mut Ctx) {
                             }
                         }
                         Err(()) => fl.hit(c, "date-time addition panicked", &format!("{name} {day} {ts} {frac} {ds} {df}")),
+                    }
+                    // the operator and std::time::Duration forms are the checked form whenever it succeeds
+                    if let Ok(Some(r)) = got {
+                        let mut forms: Vec<(&'static str, Result<NaiveDateTime, ()>)> = vec![];
+                        if is_add {
+                            forms.push(("+", guard(|| dt + d)));
+                            forms.push(("+=", guard(|| { let mut m = dt; m += d; m })));
+                        } else {
+                            forms.push(("-", guard(|| dt - d)));
+                            forms.push(("-=", guard(|| { let mut m = dt; m -= d; m })));
+                        }
+                        if let Ok(sd) = d.to_std() {
+                            if is_add {
+                                forms.push(("+ std", guard(|| dt + sd)));
+                                forms.push(("+= std", guard(|| { let mut m = dt; m += sd; m })));
+                            } else {
+                                forms.push(("- std", guard(|| dt - sd)));
+                                forms.push(("-= std", guard(|| { let mut m = dt; m -= sd; m })));
+                            }
+                        }
+                        for (how, v) in forms {
+                            tl.add("dt:operator-forms");
+                            if v != Ok(r) {
+                                fl.hit(c, "date-time operator / std Duration form differs from the checked form", &format!("{how} {day} {ts} {frac} {ds} {df} -> {:?} (checked form {})", v, show(Some(r))));
+                            }
+                        }
                     }
                 }
                 _ => {
